@@ -12,7 +12,7 @@ import (
 func init() {
 	register(&Property{
 		ID: "C06", Level: "exploration", Builds: []string{"plain"},
-		Rule:        "write direction: every bitmap of the C05 population (history-dependent chunk kinds, 0..300 chunks, one 65536-chunk bitmap) is serialized and decoded by an INDEPENDENT decoder written from the published RoaringFormatSpec (plain encoding/binary, no library code), which also checks the structural rules (cookie, chunk count, run-flag bits, strictly ascending keys, cardinality-minus-one fields, offset header present iff cookie 12346 or >= 4 chunks and pointing at each payload, array iff cardinality <= 4096, run count + (start,length-1) pairs sorted and disjoint, exact stream length). Read direction: an INDEPENDENT encoder enumerates the legal choices of other implementations (cookie 12346 vs 12347; 12347 with zero, some or all chunks run-encoded; per-chunk run vs array/bitmap; maximal runs or runs split into adjacent pieces; 0,1,3,4,5,many chunks) and the library must read exactly the encoded set through ReadFrom, FromBuffer and FromUnsafeBytes (ToArray, GetCardinality, Contains probes, Iterator). Golden files written by the Java/C implementations are decoded by both and compared. Non-trivial: non-empty set; distinct = hash(set, encoder choices).",
+		Rule:        "write direction: every bitmap of the C05 population (history-dependent chunk kinds, 0..300 chunks, one 65536-chunk bitmap) is serialized and decoded by an INDEPENDENT decoder written from the published RoaringFormatSpec (plain encoding/binary, no library code), which also checks the structural rules (cookie, chunk count, run-flag bits, strictly ascending keys, cardinality-minus-one fields, offset header present iff cookie 12346 or >= 4 chunks and pointing at each payload, array iff cardinality <= 4096, run count + (start,length-1) pairs sorted and disjoint, exact stream length). Read direction: an INDEPENDENT encoder enumerates the legal choices of other implementations (cookie 12346 vs 12347; 12347 with zero, some or all chunks run-encoded; per-chunk run vs array/bitmap; maximal runs or runs split into adjacent pieces; 0,1,3,4,5,many chunks) and the library must read exactly the encoded set through ReadFrom, FromBuffer and FromUnsafeBytes (ToArray, GetCardinality, Contains probes, Iterator). Golden files written by the Java/C implementations are decoded by both and compared. Non-trivial: non-empty set; distinct = hash(set, encoder choices). Exhaustive sub-spaces: every chunk count in both directions, every run count 1..32768 of a foreign run chunk (quick: 1..2200 + edges), receiver growth x stream size with foreign streams.",
 		Assumptions: []string{"the independent codec is this author's reading of the RoaringFormatSpec; the golden files of other implementations mitigate a shared misreading", "Validate() is not required of spec-legal streams with non-maximal runs"},
 		Units: []Unit{
 			{Name: "write-direction", Quick: 15000, Thorough: 500000, Run: c06Write},
